@@ -385,8 +385,10 @@ type path struct {
 
 	world *threadWorld // C20 environment (threads.go)
 
-	intRanges map[*Term][2]int64
-	pins      map[*Term]int64
+	intRanges  map[*Term][2]int64
+	decided    map[*Term]bool
+	lastBranch bool
+	pins       map[*Term]int64
 }
 
 type knownRec struct {
@@ -400,7 +402,7 @@ func newPath(e *Engine, prefix []int, sol *Solver, cfg RunConfig) *path {
 		globals: map[*ssa.Global]*value{}, inputBy: map[string]*inputRec{},
 		knownHits: map[string]*Violation{}, assertsOK: map[string]int{}, assertsFold: map[string]int{},
 		reached: map[string]int{}, funcs: map[string]bool{}, stubs: map[string]bool{}, assumptions: map[string]bool{},
-		intRanges: map[*Term][2]int64{}, pins: map[*Term]int64{},
+		intRanges: map[*Term][2]int64{}, pins: map[*Term]int64{}, decided: map[*Term]bool{},
 	}
 	return p
 }
@@ -443,6 +445,16 @@ func (p *path) branch(c *Term) bool {
 	if p.spec > 0 {
 		panic(specAbort{})
 	}
+	if v, ok := p.decided[c]; ok {
+		p.folded++
+		return v
+	}
+	nc := p.tc.Not(c)
+	defer func() {
+		// remember the outcome (set by the return paths below through p.lastBranch)
+		p.decided[c] = p.lastBranch
+		p.decided[nc] = !p.lastBranch
+	}()
 	i := p.pos
 	p.pos++
 	if i < len(p.prefix) {
@@ -451,12 +463,12 @@ func (p *path) branch(c *Term) bool {
 		if taken {
 			p.sol.Assert(c)
 		} else {
-			p.sol.Assert(p.tc.Not(c))
+			p.sol.Assert(nc)
 		}
 		p.pcSize++
+		p.lastBranch = taken
 		return taken
 	}
-	nc := p.tc.Not(c)
 	rT, _ := p.sol.Check(purposeBranch, false, nil, c)
 	if rT == "unknown" {
 		p.abort(abortSolver, "solver returned unknown on a branch")
@@ -465,12 +477,14 @@ func (p *path) branch(c *Term) bool {
 		p.decisions = append(p.decisions, 0)
 		p.sol.Assert(nc)
 		p.pcSize++
+		p.lastBranch = false
 		return false
 	}
 	rF, _ := p.sol.Check(purposeBranch, false, nil, nc)
 	if rF == "unknown" {
 		p.abort(abortSolver, "solver returned unknown on a branch")
 	}
+	p.lastBranch = true
 	if rF == "unsat" {
 		p.decisions = append(p.decisions, 1)
 		p.sol.Assert(c)
